@@ -78,8 +78,11 @@ let lst_step (k : int) (o : lop) =
      | Some ms, None -> ls.lrem <- int_of_n ms
      | _ -> ())
 
-(* one pass over everything; true if some step was taken *)
-let settle_pass () : bool =
+(* one pass; true if some step was taken.  [reap]: this pass is the reaper's (one step per pipe); otherwise it is the
+   pass of the threads that run callbacks (start threads, endpoint callbacks).  The reaper gets its turn only when
+   those have nothing to do: in the library it is a thread of its own that has to be woken first, while an accept
+   callback that re-arms and is matched at once goes on without a thread switch. *)
+let settle_pass (reap : bool) : bool =
   let progress = ref false in
   let did () = progress := true in
   (* pipes *)
@@ -97,7 +100,7 @@ let settle_pass () : bool =
           sstep_ pi.sk (OCbAct (i, w, CbClose i))
         end;
         sstep_ pi.sk (OCbExit (i, w)) in
-      (match p.p_spc with
+      if not reap then (match p.p_spc with
        | SPreRead | SPostRead -> sstep_ pi.sk (OCbRead (i, WStart)); did ()
        | SPreEnter _ | SPostEnter _ -> if s.m.s_ser = None then (sstep_ pi.sk (OCbEnter (i, WStart)); did ())
        | SPreInCb -> cb_actions WStart 1; did ()
@@ -133,7 +136,7 @@ let settle_pass () : bool =
            did ()
        | SIdle | SDone -> ());
       let p = pipe_of g in
-      (match p.p_rpc with
+      if reap then (match p.p_rpc with
        | RQueued -> if s.active = Some g then s.active <- None; sstep_ pi.sk (OReap i); did ()
        | RTranClose | RStop -> sstep_ pi.sk (OReap i); did ()
        | RRemRead -> sstep_ pi.sk (OCbRead (i, WReap)); did ()
@@ -151,7 +154,7 @@ let settle_pass () : bool =
            did ()
        | RNone | RDone -> ())) !pinfos;
   (* dialers *)
-  Array.iteri (fun k d -> match d with
+  if not reap then Array.iteri (fun k d -> match d with
     | None -> ()
     | Some ds ->
       (match ds.dm.d_conn_done with
@@ -170,7 +173,7 @@ let settle_pass () : bool =
        | Some _ -> dial_step k DTimerCb; did ()
        | None -> ())) dials;
   (* listeners *)
-  Array.iteri (fun k l -> match l with
+  if not reap then Array.iteri (fun k l -> match l with
     | None -> ()
     | Some ls ->
       (match ls.lm.l_acc_done with
@@ -193,7 +196,13 @@ let settle_pass () : bool =
        | _ -> ())) lsts;
   !progress
 
-let settle () = let n = ref 0 in while settle_pass () && !n < 100000 do incr n done
+let settle () =
+  let n = ref 0 in
+  let go = ref true in
+  while !go && !n < 100000 do
+    incr n;
+    if settle_pass false then () else if settle_pass true then () else go := false
+  done
 
 let pipe_gone g = let p = pipe_of g in p.p_closed
 
